@@ -8,6 +8,12 @@ elab "#audit_module " m:ident : command => do
   let some idx := env.getModuleIdx? m.getId | throwError "unknown module {m.getId}"
   for n in env.header.moduleData[idx.toNat]!.constNames do
     if n.isInternalDetail then continue
+    -- equation / induction lemmas that Lean generates on demand for *other* modules' definitions
+    let last := match n with
+      | .str _ s => s
+      | _ => ""
+    if last == "eq_def" || last.startsWith "eq_" || last == "induct" || last == "induct_unfolding"
+        || last == "fun_cases" || last == "fun_cases_unfolding" || last == "mutual_induct" then continue
     match env.find? n with
     | some (.thmInfo _) =>
       let axs ← liftCoreM (collectAxioms n)
